@@ -78,6 +78,61 @@ fn c14_need_predicates() {
     core::mem::forget(c);
 }
 
+/// The keepalive statements of one housekeeping pass over a connected, not timed-out link, in the
+/// order of src/sender/housekeeping.rs (`if needs_keepalive {..}` then `if needs_rtt_measurement {..}`);
+/// the socket send between them is I/O and outside the claim.  Returns whether a frame was built.
+fn tick_keepalives(c: &mut SrtlaConnection, now: u64) -> bool {
+    let mut sent = false;
+    if c.needs_keepalive(now) {
+        let _ = c.keepalive_packet(now);
+        sent = true;
+    }
+    if c.needs_rtt_measurement(now) {
+        let _ = c.keepalive_packet(now);
+        sent = true;
+    }
+    sent
+}
+
+/// Cadence, per-tick part: two consecutive housekeeping passes at most one period (1000 ms) apart
+/// over a connected link, with arbitrary send activity in between.  Inductive invariant after a
+/// pass at `now`: the cadence clock is at most `now` and less than 1 s old; hence the gap between
+/// two consecutive keepalives is below two periods.  The period itself (tokio interval) and
+/// timer jitter are outside the claim.
+#[kani::proof]
+fn c14_cadence_ticks() {
+    const P: u64 = 1000; // HOUSEKEEPING_INTERVAL_MS
+    let mut c = any_conn(1, SYM_INT);
+    c.rtt.waiting_for_keepalive_response = kani::any();
+    c.rtt.last_rtt_measurement_ms = any_time();
+    kani::assume(c.connected);
+    let t0 = any_now();
+    // the cadence clock is only ever stamped with the clock value (c14_keepalive_frame)
+    if let Some(l) = *c.vh_last_keepalive_sent() {
+        kani::assume(l <= t0);
+    }
+    let _ = tick_keepalives(&mut c, t0);
+    let l0 = (*c.vh_last_keepalive_sent()).expect("a connected link has sent a keepalive after its first pass");
+    assert!(l0 <= t0 && t0 - l0 < P, "after a pass the last keepalive is less than one period old");
+    // arbitrary data / handshake sends between the passes do not feed the cadence clock
+    let d: u64 = kani::any();
+    kani::assume(d >= 1 && d <= P);
+    let t1 = t0 + d;
+    if kani::any() {
+        let ts: u64 = kani::any();
+        kani::assume(ts >= t0 && ts <= t1);
+        c.note_sent(ts);
+    }
+    let sent = tick_keepalives(&mut c, t1);
+    let l1 = (*c.vh_last_keepalive_sent()).expect("cadence clock stays set");
+    assert!(l1 == l0 || (sent && l1 == t1), "the cadence clock moves only by sending a keepalive now");
+    assert!(t1 - l1 < P, "invariant re-established: last keepalive less than one period old");
+    assert!(t1 - l0 < 2 * P, "gap between consecutive keepalives is below two housekeeping periods");
+    kani::cover!(sent && l0 != t0, "second pass sends, first did not");
+    kani::cover!(!sent, "second pass does not send");
+    core::mem::forget(c);
+}
+
 /// Stub standing in for the sample sink: records the sample so the harness can observe it.
 pub fn record_sample(t: &mut RttTracker, rtt: u64, now: u64) {
     t.last_rtt_measurement_ms = now;
